@@ -192,5 +192,5 @@ func checkJSONDecoders(p *Prog, r *Report, clause string) {
 			r.Fail(key, rule, p.FnPos(fn), FuncName(fn)+" "+strings.Join(bad, "; ")+": a value whose JSON form contains an escape (\\u0026, \\\", \\\\ …) is imported as the escaped text, so what is read back differs from what was exported")
 		}
 	}
-	r.Floor("hand-written-UnmarshalJSON-methods", n, 2)
+	r.Floor("hand-written-UnmarshalJSON-methods", n, 1)
 }
